@@ -68,7 +68,8 @@ def run(ctx):
     for (label, opts, n, levels) in [
             ('core', dict(signed=False, shorts=False), 500 if quick else 12000, ['-O0', '-O1']),
             ('full', dict(bait=True, bait_p=0.15), 250 if quick else 8000, ['-O0'] if quick else ['-O0', '-O1']),
-            ('bait', dict(bait=True, inline=True, shorts='always', bait_p=0.4), 200 if quick else 5000, ['-O1'] if quick else ['-O0', '-O1'])]:
+            ('bait', dict(bait=True, inline=True, shorts='always', bait_p=0.4), 200 if quick else 5000, ['-O1'] if quick else ['-O0', '-O1']),
+            ('ptr', dict(pointers=True, signed=False, shorts=False, bait=True, bait_p=0.15), 200 if quick else 5000, ['-O1'] if quick else ['-O0', '-O1'])]:
         progs = {'%s%d' % (label, i): gen_program(rng, opts) for i in range(n)}
         nprog += len(progs)
         for O in levels:
@@ -117,7 +118,7 @@ def run(ctx):
     if tab_mism and not viol:
         ctx.violation_noinput('Model/GenTables.v / GenTemplates.v no longer match the generator on %d of %d cells; first: %s'
                               % (len(tab_mism), ncell, json.dumps(tab_mism[0])[:1500]), 'corr-M:gen_tables')
-    ctx.cov['rule'] = ('tools/lib/gen_c.py: globals of char/signed char/short/array/const table, X and Y, arithmetic, bitwise, shifts, '
+    ctx.cov['rule'] = ('tools/lib/gen_c.py: globals of char/signed char/short/array/const table/pointer to char (&v, array names, *p, p[i]), X and Y, arithmetic, bitwise, shifts, '
                        'comparisons, logical operators, ternary, assignment forms, ++/--, if/else, for/while/do, switch with fall-through, '
                        'calls with arguments and results, inline functions; bounded loops; 12 (quick) / 32 (thorough) initial states per '
                        'program biased to boundary bytes and all flag patterns; non-trivial = executions on which C semantics and machine agree '
